@@ -1,5 +1,6 @@
 (* C11 - source text is read with the documented precedence, literals and comments. *)
 From HclV Require Import Base Expr Machine Graph Build Lexer Parser LexParseSpec LexParseProofs Generated TriviaSpec TriviaProofs.
+From HclV Require Import LexRoundTripSpec LexRoundTripProofs.
 Open Scope list_scope.
 Open Scope N_scope.
 
@@ -172,3 +173,21 @@ Print Assumptions C11_printers_are_renderings.
 Theorem C11_trivia_draft_refuted : ~ stmt_trivia_irrelevant_draft.
 Proof. exact trivia_irrelevant_draft_refuted. Qed.
 Print Assumptions C11_trivia_draft_refuted.
+
+(* ---- the lexer's range and re-printing (LexRoundTripSpec.v / LexRoundTripProofs.v) ------------- *)
+(* every token the lexer outputs is in the spelling domain of the trivia theorem *)
+Theorem C11_lexer_output_is_spellable : stmt_lexer_output_lexable.
+Proof. exact lexer_output_lexable_holds. Qed.
+Print Assumptions C11_lexer_output_is_spellable.
+(* printing the tokens of any text canonically (single blanks, or only the blanks that are
+   necessary) lexes back to exactly those tokens, and means the same *)
+Theorem C11_canonical_print_lexes_back : stmt_canonical_print_lexes_back.
+Proof. exact canonical_print_lexes_back_holds. Qed.
+Print Assumptions C11_canonical_print_lexes_back.
+Theorem C11_reprinting_keeps_the_meaning : stmt_reprint_same_meaning.
+Proof. exact reprint_same_meaning_holds. Qed.
+Print Assumptions C11_reprinting_keeps_the_meaning.
+(* the separation condition of the trivia theorem is necessary as well as sufficient *)
+Theorem C11_separation_condition_is_exact : stmt_may_follow_exact.
+Proof. exact may_follow_exact_holds. Qed.
+Print Assumptions C11_separation_condition_is_exact.
